@@ -39,6 +39,7 @@ SPEC = {
     "harness": "c01b",
     "theorems": ["C01_json_roundtrip", "C01_json_roundtrip_canon", "C01_json_canon_id", "C01_json_api_roundtrip", "C01_json_map_any_iteration_order",
                  "C01_json_key_order_irrelevant", "C01_json_key_order_by_lookup", "C01_json_map_member_order",
+                 "C01_json_encode_order_irrelevant", "C01_json_isEmpty_order_irrelevant",
                  "C01_json_model_type_member", "C01_json_model_time_saturation"] + SOURCE_OBLIGATIONS,
     "trusted_base": [
         "hand-written model Hive/Model/SerixJson.lean (+SerixJsonText) of serializer/serix/map_encode.go and map_decode.go, tied by "
